@@ -1,10 +1,12 @@
 (** Abstract MemPool bookkeeping (src/pop/mempool.cpp), one payload type.
 
-    A payload is a number; [ht p] is the VBK height the in-flight view sorts by
-    and [par p] the block whose presence is the payload's missing context (its
-    VBK parent). What the block trees say is NOT modelled: every tree verdict
+    A payload is a number; [ht p] is the VBK height the in-flight view sorts by,
+    [blk p] the VBK block the payload carries (block of proof / containing block /
+    the block itself) and [par p] the block whose presence is the payload's
+    missing context (the parent of [blk p]). What the block trees say is NOT modelled: every tree verdict
     is an input of the step (the set [base] of blocks the trees know, the set
-    [stale] of payloads failing the contextual check, a stateless verdict), so
+    [stale] of payloads a connect pass cannot connect for reasons of the trees,
+    the set [gone] of payloads cleanUp removes, a stateless verdict), so
     the theorems hold for every tree and every way it changes between calls.
 
     connected payloads: a duplicate-free list (stored_*_ is a map keyed by id);
@@ -21,13 +23,14 @@ Local Open Scope N_scope.
 Section Pool.
   Variable ht : N -> N.
   Variable par : N -> N.
+  Variable blk : N -> N.   (* the VBK block a connected payload brings into the temporary tree (itself for a VbkBlock) *)
 
   Record pool := mkp { conn : list N; infl : vsm }.
   Definition pempty : pool := mkp [] empty.
   Inductive res := POk (s : pool) | PAbort.
 
   Definition mem (x : N) (l : list N) : bool := existsb (N.eqb x) l.
-  Definition present (base c : list N) (x : N) : bool := mem x base || mem x c.
+  Definition present (base c : list N) (x : N) : bool := mem x base || mem x (map blk c).
   Definition inflight (s : pool) (p : N) : bool :=
     match m_find p (vmap (infl s)) with Some _ => true | None => false end.
   Definition connected (s : pool) (p : N) : bool := mem p (conn s).
@@ -76,24 +79,27 @@ Section Pool.
     | k :: r => match erase ht k f with Ok f' => erase_all r f' | Abort => Abort end
     end.
 
-  (** cleanUp: stale connected payloads leave the relations and maps, stale in-flight payloads are erased *)
-  Definition cleanUp (stale : list N) (s : pool) : res :=
-    match erase_all (filter (fun k => mem k stale) (map fst (vmap (infl s)))) (infl s) with
-    | Ok f => POk (mkp (filter (fun p => negb (mem p stale)) (conn s)) f)
+  (** cleanUp: connected payloads in [gone_c] (contextually invalid, or ATVs of a too old VBK block) leave the
+      relations and maps, in-flight payloads in [gone_f] (contextually invalid) are erased *)
+  Definition dropIds (ids : list N) (s : pool) : pool :=
+    mkp (filter (fun p => negb (mem p ids)) (conn s)) (infl s).
+  Definition cleanUp (gone_c gone_f : list N) (s : pool) : res :=
+    match erase_all (filter (fun k => mem k gone_f) (map fst (vmap (infl s)))) (infl s) with
+    | Ok f => POk (mkp (filter (fun p => negb (mem p gone_c)) (conn s)) f)
     | Abort => PAbort
     end.
 
   (** removeAll(popData): drop the ids from the connected maps, cleanUp, tryConnectPayloads *)
-  Definition removeAll (ids base stale : list N) (s : pool) : res :=
-    match cleanUp stale (mkp (filter (fun p => negb (mem p ids)) (conn s)) (infl s)) with
+  Definition removeAll (ids base stale gone_c gone_f : list N) (s : pool) : res :=
+    match cleanUp gone_c gone_f (dropIds ids s) with
     | POk s1 => tryConnect base stale s1
     | PAbort => PAbort
     end.
 
   (** generatePopData: tryConnectPayloads, (filterInvalidPayloads does not touch the pool), cleanUp *)
-  Definition generate (base stale : list N) (s : pool) : res :=
+  Definition generate (base stale gone_c gone_f : list N) (s : pool) : res :=
     match tryConnect base stale s with
-    | POk s1 => cleanUp stale s1
+    | POk s1 => cleanUp gone_c gone_f s1
     | PAbort => PAbort
     end.
 
@@ -102,17 +108,17 @@ Section Pool.
 
   Inductive pop :=
   | Submit (base : list N) (v : verdict) (p : N)
-  | Generate (base stale : list N)
-  | RemoveAll (ids base stale : list N)
-  | CleanUp (stale : list N)
+  | Generate (base stale gone_c gone_f : list N)
+  | RemoveAll (ids base stale gone_c gone_f : list N)
+  | CleanUp (gone_c gone_f : list N)
   | Clear.
 
   Definition pstep (s : pool) (o : pop) : res :=
     match o with
     | Submit base v p => submit base v p s
-    | Generate base stale => generate base stale s
-    | RemoveAll ids base stale => removeAll ids base stale s
-    | CleanUp stale => cleanUp stale s
+    | Generate base stale gc gf => generate base stale gc gf s
+    | RemoveAll ids base stale gc gf => removeAll ids base stale gc gf s
+    | CleanUp gc gf => cleanUp gc gf s
     | Clear => clear s
     end.
 
